@@ -615,6 +615,11 @@ impl BlockFilterRpc for BlockFilterRpcImpl {
                     "doesn't support search_key.filter.output_capacity_range parameter",
                 ));
             }
+            if filter.script_len_range.is_some() {
+                return Err(Error::invalid_params(
+                    "doesn't support search_key.filter.script_len_range parameter",
+                ));
+            }
             let filter_script: Option<packed::Script> =
                 filter.script.as_ref().map(|script| script.clone().into());
             let filter_block_range: Option<[core::BlockNumber; 2]> =
